@@ -69,6 +69,10 @@ def run(F, rep, tier):
     irp_shortcircuit(F, rep, T)
     visit_lowering(F, rep, T)
     literals(F, rep, T)
+    # a global's initialiser runs after everything it reads: the dependency fold must see every read
+    import c11
+    c11.dependency_visit(F, rep)
+    c11.cycle(F, rep)
 
 
 def lua_value_text(T, op):
